@@ -2,7 +2,8 @@
 // the enclosing function's contract.  The callee is a deterministic function of (schema, context, input): `dec_val`
 // and `dec_len` are uninterpreted, so an arm is proved for every possible behaviour of the recursive call.
 #[verifier::external_body] pub struct Names { x: u8 }
-#[verifier::external_body] #[derive(Clone, Copy)] pub struct NamespaceRef { x: u8 }
+#[verifier::external_body] #[derive(Clone, Copy)] pub struct NsName { x: u8 }
+pub type NamespaceRef = Option<NsName>;
 
 pub uninterp spec fn dec_ok(schema: Schema, names: Names, ns: NamespaceRef, input: Seq<u8>) -> bool;
 pub uninterp spec fn dec_val(schema: Schema, names: Names, ns: NamespaceRef, input: Seq<u8>) -> Value;
